@@ -135,7 +135,8 @@ package best
 //@   at call go#1: ghost nstarted = nstarted + 1
 //@   loop 1
 //@     invariant nstarted <= rangeindex + 1
-//@   modifies res.AllProviders, contents(s.relayPubkeys)
+//@   // (the last two: util's cache of builder clients, written by FetchBuilderClient)
+//@   modifies res.AllProviders, contents(s.relayPubkeys), heap:MapDom_string__go_builder_client_Service, heap:MapVal_string__go_builder_client_Service
 //@
 //@ func (*Service).BuilderBid
 //@   requires proposerConfig != nil && unheld(s.relayPubkeysMu)
